@@ -412,6 +412,8 @@ impl Decimal {
     { unimplemented!() }
     #[verifier::external_body]
     pub fn to_uint_floor(self) -> (r: Uint128) ensures r@ == self@ / DEC { unimplemented!() }
+    #[verifier::external_body]
+    pub fn to_uint_ceil(self) -> (r: Uint128) ensures r@ == (self@ + DEC - 1) as nat / DEC { unimplemented!() }
     /// `Decimal::from_str`: the parser is uninterpreted except for the literals pinned by `axiom_dec_parse_*`
     #[verifier::external_body]
     pub fn from_str(s: &str) -> (r: Result<Decimal, StdError>)
@@ -485,6 +487,8 @@ impl Decimal256 {
     { unimplemented!() }
     #[verifier::external_body]
     pub fn to_uint_floor(self) -> (r: Uint256) ensures r@ == self@ / DEC { unimplemented!() }
+    #[verifier::external_body]
+    pub fn to_uint_ceil(self) -> (r: Uint256) ensures r@ == (self@ + DEC - 1) as nat / DEC { unimplemented!() }
     /// `inv()`: None for zero, else floor(10^36 / a)
     #[verifier::external_body]
     pub fn inv(&self) -> (r: Option<Decimal256>)
